@@ -243,4 +243,44 @@ theorem pwm_highs_window (P W : Nat) (ins : List PwmIn)
       rw [ih (fun x hx => h x (by simp [hx])) (pwmNext s i) (by rw [hc]; simp only [List.length_cons] at *; omega), hc]
       by_cases hw : s.counter < W <;> simp [hw] <;> omega
 
+/-! ### timeline -/
+
+theorem timeline_next_running (last c : Nat) (t : Bool) (hl : 1 ≤ last) (h0 : 0 < c) (hc : c ≤ last) :
+    timelineNext last c t = if c = last then 0 else c + 1 := by
+  have hne : (c != 0) = true := by simp; omega
+  have hl0 : (last == 0) = false := by simp; omega
+  unfold timelineNext
+  simp only [hne, if_true, hl0, Bool.false_eq_true, if_false]
+  by_cases hp : isPow2 (last + 1) = true
+  · simp only [hp, if_true]
+    by_cases he : c = last
+    · simp [he]
+    · simp only [he, if_false]; exact Nat.mod_eq_of_lt (by omega)
+  · simp only [hp, Bool.false_eq_true, if_false]
+    by_cases he : c = last <;> simp [he]
+
+theorem timeline_next_idle (last : Nat) (t : Bool) (hl : 1 ≤ last) :
+    timelineNext last 0 t = if t then 1 else 0 := by
+  have hl0 : (last == 0) = false := by simp; omega
+  have hl1 : (0 == last) = false := by simp; omega
+  have h1 : 1 % (last + 1) = 1 := Nat.mod_eq_of_lt (by omega)
+  unfold timelineNext
+  by_cases hp : isPow2 (last + 1) = true
+  · cases t <;> simp [hp, hl0, h1]
+  · cases t <;> simp [hp, hl1]
+
+/-- Once started, the counter goes up by one per cycle until `last`, for every later trigger input. -/
+theorem timeline_counts (last : Nat) (hl : 1 ≤ last) (ts : List Bool) (c : Nat) (h0 : 0 < c)
+    (hlen : c + ts.length ≤ last) : (timelineM last).runFrom c ts = c + ts.length := by
+  induction ts generalizing c with
+  | nil => rfl
+  | cons t ts ih =>
+    simp only [List.length_cons] at hlen
+    show (timelineM last).runFrom (timelineNext last c t) ts = _
+    rw [timeline_next_running last c t hl h0 (by omega)]
+    have : ¬ (c = last) := by omega
+    simp only [this, if_false]
+    rw [ih (c + 1) (by omega) (by omega)]
+    simp only [List.length_cons]; omega
+
 end Litex.Periph
